@@ -347,6 +347,23 @@ def r02_1(cx, R, S):
                             v = H.const_value(s)
                             if isinstance(v, int):
                                 rconst = v
+            if 0x10 in ra["arms"]:
+                # decided by evaluation (either polarity of the test, `match`, `matches!`..): the reader's arm for target_type 0x10 is run
+                # with the u16 it reads fixed to 0xffff / 0 / 7 and must give Extends exactly for 0xffff
+                outcomes = {}
+                for v in (0xffff, 0, 7, 0xfffe):
+                    ev1 = T.Evaluator(calls={"read_u16": (lambda args, v=v: T.V("Ok", ("i", v)))})
+                    try:
+                        r1 = ev1.ev(_arm_body(ra, 0x10), {})
+                    except T.Return as rr:
+                        r1 = rr.v
+                    except T.Break:
+                        r1 = T.sym("<break>")
+                    outcomes[v] = "Extends" if "Extends" in T.show(r1) else ("other" if r1[0] in ("v", "st") or T.is_sym(r1) else "?")
+                if outcomes.get(0xffff) == "Extends" and all(outcomes.get(v) == "other" for v in (0, 7, 0xfffe)):
+                    rconst = 0xffff
+                elif rconst == 0xffff:
+                    rconst = None
             R.inst("R02.1", "target:class:extends-marker", wconst is not None and wconst == rconst == 0xffff, sp=wb["sp"], expect=0xffff,
                    got={"writer": wconst, "reader": rconst}, detail="supertype_index 65535 denotes the extends clause (JVMS 4.7.20.1)")
     # type-path kind table (writer side; the reader's is R01.11)
